@@ -173,6 +173,8 @@ func TestC18Child(t *testing.T) {
 		c18ChildA(t)
 	case "c18b":
 		c18ChildB(t)
+	case "c18z":
+		c18ChildZ(t)
 	default:
 		t.Skip("not a C18 role")
 	}
@@ -658,7 +660,7 @@ func TestC18(t *testing.T) {
 		t.Skip("parent only")
 	}
 	r := kit.Start(t, "C18", "fault_enumeration")
-	r.Rule("enumeration: crash point P in the 8 hook points of the accept pipeline (after index update, after queueing, processAccept entry, after results write, before state commit, after state commit, before/after subscriber notification) x hit k in 1..N x queue depth D; child process A builds and Accepts N blocks (1-3 txs each, distinct units and state writes) while a gate at processAccept entry keeps D accepted blocks unprocessed, and exits at the k-th hit of P; child B restarts on the same directories; a case is non-trivial when A really exited at the armed point and B ran; distinct = (P,k,N,D)")
+	r.Rule("enumeration: crash point P in the 8 hook points of the accept pipeline (after index update, after queueing, processAccept entry, after results write, before state commit, after state commit, before/after subscriber notification) x hit k in 1..N x queue depth D; child process A builds and Accepts N blocks (1-3 txs each, distinct units and state writes) while a gate at processAccept entry keeps D accepted blocks unprocessed, and exits at the k-th hit of P; child B restarts on the same directories; a case is non-trivial when A really exited at the armed point and B ran; distinct = (P,k,N,D); plus restart-at-height-0 histories (3 fixed + a PRNG-drawn set per run): a node started from a genesis with 2-6 PRNG-drawn allocations (an address may repeat) is shut down before any block was accepted, after U in 0..2 blocks were built and verified but not accepted, and restarted R in {1,2} times on the same directory (one child process per boot); after every restart the last accepted and last processed block must be the genesis block with the id seen before the restart, the state root must be unchanged and every allocated address must hold exactly the sum the genesis file gives it; the last boot then accepts N blocks and is compared with the never-restarted reference (last accepted id, state root, results); non-trivial when the fresh start was a clean baseline and the restart ran; distinct = (R,U,N,allocations)")
 	r.Assume(
 		"crash = abrupt process exit (os.Exit) - the OS page cache survives; power loss / torn disk writes are not modelled",
 		"'same last accepted block as a node that never crashed' is read as: restarted last accepted height in [last Accept that returned, last Accept that was called], and root/results equal to a never-crashed node that accepted exactly the blocks up to that height",
@@ -681,13 +683,24 @@ func TestC18(t *testing.T) {
 		t.Fatal(err)
 	}
 	var cases []c18Case
+	var zcases []c18ZCase
 	if rf := r.Replay(); rf != nil {
 		var w c18Witness
-		if err := json.Unmarshal(rf.Witness, &w); err != nil {
+		var zw c18ZWitness
+		if err := json.Unmarshal(rf.Witness, &zw); err == nil && len(zw.ZCase.Allocs) > 0 {
+			zcases = []c18ZCase{zw.ZCase}
+		} else if err := json.Unmarshal(rf.Witness, &w); err != nil {
 			t.Fatalf("replay witness: %v", err)
+		} else {
+			cases = []c18Case{w.Case}
 		}
-		cases = []c18Case{w.Case}
 	} else {
+		// restart-at-height-0 histories: three fixed shapes, the rest drawn
+		zr := r.Rand("restart-at-genesis")
+		zcases = append(zcases, c18ZGenCase(zr, 1, 0, 2), c18ZGenCase(zr, 2, 0, 2), c18ZGenCase(zr, 2, 1, 3))
+		for i, n := 0, r.N(3, 40); i < n; i++ {
+			zcases = append(zcases, c18ZGenCase(zr, 1+zr.IntN(2), zr.IntN(3), 1+zr.IntN(4)))
+		}
 		for _, cf := range cfgs {
 			for _, d := range cf.Depths {
 				for _, p := range c18Points {
@@ -707,24 +720,37 @@ func TestC18(t *testing.T) {
 	}
 	r.Extra("crash_points", c18Points)
 	r.Extra("chain_length_and_queue_depths", cfgs)
+	r.Extra("restart_at_height_0_cases", len(zcases))
 	par := 8
 	if v, err := strconv.Atoi(os.Getenv("VERIF_C18_PAR")); err == nil && v > 0 {
 		par = v
 	}
-	ch := make(chan c18Case)
+	ch := make(chan func())
 	var wg sync.WaitGroup
 	for i := 0; i < par; i++ {
 		wg.Add(1)
 		go func() {
 			defer wg.Done()
-			for c := range ch {
-				runC18Case(t, r, c, genesisBytes)
+			for f := range ch {
+				f()
 			}
 		}()
 	}
 	sort.SliceStable(cases, func(i, j int) bool { return cases[i].Hit > cases[j].Hit }) // long cases first
+	if os.Getenv("VERIF_C18_ONLY") == "z" { // debugging aid: only the restart-at-height-0 histories
+		cases = nil
+	}
 	for _, c := range cases {
-		ch <- c
+		ch <- func() { runC18Case(t, r, c, genesisBytes) }
+	}
+	for _, c := range zcases {
+		ch <- func() {
+			start := time.Now()
+			runC18ZCase(t, r, c)
+			if os.Getenv("VERIF_C18_ONLY") == "z" {
+				t.Logf("%s: %v", c, time.Since(start))
+			}
+		}
 	}
 	close(ch)
 	wg.Wait()
@@ -732,5 +758,5 @@ func TestC18(t *testing.T) {
 		r.Finish(0)
 		return
 	}
-	r.Finish(len(cases) * 9 / 10)
+	r.Finish((len(cases) + len(zcases)) * 9 / 10)
 }
